@@ -140,7 +140,7 @@ def nontrivial(case):
 
 
 def single_impl(ctx, compiled):
-    if compiled:
+    if compiled and ctx.shim.ok:
         return ctx.shim.fn("cython_profiles", "coincidence_single_profile_cython")
     from pyspike.cython.python_backend import coincidence_single_python
     return coincidence_single_python
